@@ -21,6 +21,11 @@
 # earlier, space and non-ASCII in a non-last component, call in a nested meson.build) x strip_directory {unset, false, true} x
 # exclude lists (entries relative to the installed directory, decoys relative to anything else) x install_dir kind; the
 # expectation is the example of install_subdir.yaml (the LAST component of the name is kept unless strip_directory).
+# Family M: a directory that two rules SHARE - install_emptydir(P, install_mode: M) x {alone, install_data, install_headers,
+# install_man, install_subdir, install_symlink, custom_target} whose destination directory is P / lies below P / (install_subdir) IS P,
+# x both declaration orders x DESTDIR pre-states {absent, the declared directories exist with default permissions (mkdir -p),
+# the tree left by installing revision 1 of the same project that declared no install_mode}; install, install, uninstall: P carries
+# the declared mode after every install (c11model._r_shared).
 import hashlib, itertools, json, os, re, shutil, stat, subprocess, sys, time
 from collections import deque
 from verif.core import Check, pmap, run_main, scratch_root, REPO, VERIF
@@ -201,6 +206,8 @@ class World:
         self.dirs = dict(M.DIRSETS[job['guess']['dirset']]) if job.get('guess') else None
         self.umask = job['umask']
         self.touched = None       # (path, kind) of the file that action C touches
+        self.rev1_tree = {}       # init 'rev1': the DESTDIR tree after installing the previous revision (run_job)
+        self.mode_conflicts = 0   # two rules declare different modes for one directory: not specified, counted
         self.touch_base = None
 
     def treerel(self, syspath):
@@ -305,6 +312,20 @@ class World:
     def initial_tree(self, init):
         if init == 'absent':
             return {}
+        if init == 'rev1':
+            # what installing the previous revision of the project (no install_mode anywhere) into the same DESTDIR left behind
+            return dict(self.rev1_tree)
+        if init == 'declared':
+            # every directory that a rule names is already there with default permissions, as `mkdir -p` under umask 022 (a
+            # packaging tool preparing the staging tree, a hand-made prefix) makes them
+            t = {'.': ('dir', 0o755, None, T_BASE * 10**9)}
+            for e in self.proj.entries:
+                if e.kind != 'dir':
+                    continue
+                parts = self.entry_rel(e).split('/')
+                for i in range(1, len(parts) + 1):
+                    t.setdefault('/'.join(parts[:i]), ('dir', 0o755, None, T_BASE * 10**9))
+            return t
         t = {'.': ('dir', 0o755, None, T_BASE * 10**9)}
         pr = self.treerel(self.prefix)
         parts = pr.split('/')
@@ -373,15 +394,25 @@ def predict_install(w, T, sel):
                 exp[p] = Exp('dir', M.UNSPEC, None, optional=not must, implied=True)       # implied parent: mode not specified
                 skipped += 1
         if e.kind == 'dir':
-            if rel in T and T[rel][0] == 'dir':
-                # existed before this install ("contents are left in place"): its mode is not specified
+            old = exp.get(rel)
+            other = old.entry if (old is not None and old.entry is not None and old.kind == 'dir') else None
+            if other is not None and other.mode is not None and e.mode is None:
+                continue              # an earlier rule declares a mode for this directory, this one declares none: the declared one holds
+            if other is not None and other.mode is not None and e.mode is not None and other.mode != e.mode:
+                # two rules declare different modes for the same directory: which one holds is not specified
+                exp[rel] = Exp('dir', M.UNSPEC, None, optional=not must, entry=e)
+                w.mode_conflicts += 1
+                skipped += 1
+            elif e.mode is not None:
+                # "the declared install_mode": the rule states the mode of this directory, whether the directory is new, was made
+                # a moment ago by another rule of the same install, or was there before the install
+                exp[rel] = Exp('dir', e.mode, None, optional=not must, entry=e)
+            elif rel in T and T[rel][0] == 'dir':
+                # no declared mode and it existed before this install ("contents are left in place"): its mode is not specified
                 exp[rel] = Exp('dir', M.UNSPEC, None, optional=not must, entry=e)
                 skipped += 1
             else:
-                mode = e.mode if e.mode is not None else default_mode(w, None, True)
-                old = exp.get(rel)
-                if old is not None and old.entry is not None and old.kind == 'dir' and old.mode != mode:
-                    mode = M.UNSPEC       # two rules name the same directory with different modes
+                mode = default_mode(w, None, True)
                 if mode is M.UNSPEC:
                     skipped += 1
                 exp[rel] = Exp('dir', mode, None, optional=not must, entry=e)
@@ -567,9 +598,12 @@ class Runner:
         self.treekeys = set()
         self.init_tree = {}
         self.cur_fault = None
+        self.init_kind = None       # the DESTDIR pre-state of this run when it is not the job's (recorded for replay)
 
     def viol(self, key, text, path, extra=None, entry=None):
         rep = {'job': self.w.job, 'tags': self.tags, 'skip': self.skip, 'history': list(path)}
+        if self.init_kind is not None:
+            rep['job'] = dict(self.w.job, init=self.init_kind)
         if entry is not None and entry.rule.guess is not None and not self.w.job['guess'].get('only'):
             # minimal reproducer: the project reduced to the rules for the one destination directory concerned
             rep['job'] = dict(self.w.job, guess=dict(self.w.job['guess'], only=[entry.rule.guess]))
@@ -912,6 +946,16 @@ class Runner:
                 self.viol(key, text, path, entry=ent)
             self.res['tree_compares'] += 1
             self.res['entries_compared'] += len(exp)
+            # coverage: directories with a declared mode that were there before the install / that another rule installs into
+            rels = [(w.entry_rel(e), e) for e, _ in self.sel]
+            for rel, e in rels:
+                x = exp.get(rel)
+                if e.kind == 'dir' and e.mode is not None and x is not None and x.entry is e and x.mode is not M.UNSPEC:
+                    self.res['declared_dir_modes_compared'] += 1
+                    if rel in T and T[rel][0] == 'dir':
+                        self.res['declared_dir_preexisting'] += 1
+                    if any(r2.startswith(rel + '/') or (r2 == rel and e2 is not e) for r2, e2 in rels):
+                        self.res['declared_dir_shared'] += 1
             # -- install twice == install once (all fields, also those the docs leave open) ----------------------
             if act == 'I' and T and all((not must) or w.entry_rel(e) in T for e, must in self.sel) and self.sel and \
                     not stale_bits(w, self.sel, T) and st.path and st.path[-1] in ('I', 'C'):
@@ -1258,6 +1302,7 @@ def strace_install(w, tags, skip, res):
 COUNTERS = ('transitions', 'states', 'product_states', 'traces', 'tree_compares', 'entries_compared', 'log_checks', 'dry_runs',
             'uninstalls', 'reversal_checks', 'idempotence_checks', 'only_changed_preserved', 'skipped_unspecified', 'replays',
             'plan_entries', 'strace_runs', 'strace_mutations', 'setups', 'built',
+            'declared_dir_modes_compared', 'declared_dir_preexisting', 'declared_dir_shared', 'dir_mode_conflicts', 'rev1_installs',
             'faults', 'faults_dst_is_dir', 'faults_dst_is_file', 'faults_parent_is_file', 'faults_src_gone', 'aborts', 'aborts_after_mkdir',
             'abort_created_paths', 'abort_log_checks', 'abort_reversal_checks', 'abort_reinstall_checks', 'fault_replaced',
             'plan_guessed_tags', 'guess_rules', 'guess_entries', 'guess_entries_one_tag', 'guess_entries_untagged', 'guess_entries_open',
@@ -1300,9 +1345,28 @@ def run_job(job):
     res.update({'viol': [], 'internal': None, 'id': job['id'], 'family': job['family'], 'wall': 0.0, 'sample_history': None})
     t0 = time.time()
     root = os.path.join(scratch_root(), 'c11.%d' % os.getpid(), 'w')
+    rev1_tree = None
+    if any(run.get('init', job['init']) == 'rev1' for run in job['runs']):
+        # install history across revisions: revision 1 of the project is the same rules without any install_mode; it is set up,
+        # installed into the (empty) DESTDIR and compared like every other install, the tree it leaves is the pre-state of revision 2
+        j1 = dict(job, rules=[[r[0], r[1], 'unset'] for r in job['rules']], init='absent')
+        w1 = World(j1, root)
+        err = w1.create()
+        if err:
+            res['internal'] = 'job %s (revision 1): %s' % (job['id'], err)
+            return res
+        r1 = Runner(w1, None, None, res)
+        st1 = r1.run_seq({}, ['I'])
+        if st1.path != ('I',):
+            shutil.rmtree(root, ignore_errors=True)
+            return res          # (the failed install of revision 1 is reported)
+        rev1_tree = st1.tree
+        res['rev1_installs'] += 1
+        res['setups'] += 1
     w = World(job, root)
     err = w.create()
-    res['setups'] = 1
+    w.rev1_tree = rev1_tree
+    res['setups'] += 1
     res['built'] = 1 if w.proj.needs_c else 0
     if err and w.proj.may_reject and err.startswith('setup failed') and 'ERROR:' in err and 'Traceback' not in err:
         res['rejected_at_setup'] = 1      # the build definition is refused: nothing gets installed, nothing to compare
@@ -1315,7 +1379,9 @@ def run_job(job):
     for run in job['runs']:
         tags, skip, hist = run['tags'], run['skip'], run['hist']
         rn_ = Runner(w, tags, skip, res)
-        init = w.initial_tree(job['init'])
+        init = w.initial_tree(run.get('init', job['init']))
+        if 'init' in run:
+            rn_.init_kind = run['init']
         if job['family'] == 'G':
             count_guess_cells(w, rn_, res)
         if hist[0] == 'seq':
@@ -1327,6 +1393,7 @@ def run_job(job):
         if run.get('strace'):
             strace_install(w, tags, skip, res)
     shutil.rmtree(root, ignore_errors=True)
+    res['dir_mode_conflicts'] = w.mode_conflicts
     res['wall'] = time.time() - t0
     return res
 
@@ -1347,8 +1414,11 @@ def mkjob(jid, family, rules, umask, prefix, destdir, mech, init, runs, with_sub
     return j
 
 
-def run_spec(tags, skip, hist, strace=False):
-    return {'tags': tags, 'skip': skip, 'hist': hist, 'strace': strace}
+def run_spec(tags, skip, hist, strace=False, init=None):
+    r = {'tags': tags, 'skip': skip, 'hist': hist, 'strace': strace}
+    if init is not None:
+        r['init'] = init        # DESTDIR pre-state of this run (default: the job's)
+    return r
 
 
 def tag_choices(universe):
@@ -1495,6 +1565,20 @@ def jobs_for(ck):
             for row in rows:
                 jobs.append(row_job('D', [M.dotdot_rule_id(kind, sp)], row, idx, 'linear'))
                 idx += 1
+    # family M: a directory shared by install_emptydir(P, install_mode: M) and another rule (c11model._r_shared): every cell of
+    # {alone, data, headers, man, subdir, symlink, custom_target} x {P is the destination directory, an ancestor of it, the subdir
+    # tree's own top} x declaration order, declared mode alternating between the two explicit modes; each from the three pre-states
+    # {DESTDIR absent, declared directories exist with default permissions, the tree left by revision 1 without install_mode}
+    # (quick: revision history for the first declaration order only); install, [uninstall, install,] install, [uninstall]
+    for i, cell in enumerate(M.SHARED_CELLS):
+        rows = OA9 if ck.thorough else [OA9[(i * 4 + seed) % 9]]
+        for k, (a, b, c, d) in enumerate(rows):
+            inits = ['absent', 'declared'] + (['rev1'] if (ck.thorough or cell[2] == 'dir-first') else [])
+            # (uninstall straight after the first install from nothing: install + uninstall must give back the empty tree)
+            runs = [run_spec(None, None, ('seq', ['I', 'U', 'I', 'I'] if x == 'absent' else ['I', 'I', 'U']), init=x) for x in inits]
+            idx = i * len(rows) + k
+            jobs.append(mkjob('M-%d' % idx, 'M', [(M.shared_rule_id(*cell), M.STYLES[a], M.MODES[1 + (i + k + b) % 2])], M.UMASKS[c], idx % 2,
+                              M.DESTDIRS[d], 'flag' if (idx // 2) % 2 else 'env', 'absent', runs))
     # family G: the --tags clause for items WITHOUT install_tag, whose tag follows from the destination directory.  One project
     # per kind of rule that is tagged this way x directory layout; the project holds one rule per destination directory of
     # c11model.guess_bases x GUESS_MIDS (x file extension); it is installed with no --tags and with every single documented tag.
@@ -1692,6 +1776,24 @@ def main():
             c = cmp_of.get(f, {'install_steps_compared': 0, 'rejected_at_setup': 0})
             ck.require(fam.get(f, {}).get('jobs', 0) >= ncell and c['install_steps_compared'] + c['rejected_at_setup'] >= ncell,
                        'family %s: a cell is missing or nothing was installed and compared' % f)
+    mcells, minits = set(), set()
+    for j in jobs:
+        if j['family'] == 'M' and not results[j['id']]['internal']:
+            mcells.add(j['rules'][0][0])
+            minits.update((j['rules'][0][0].split(':')[1], r['init']) for r in j['runs'])
+    ck.part('shared_directories', other_rule_kinds=list(M.SHARED_KINDS), cells_kind_x_place_x_declaration_order=len(mcells),
+            kind_x_prestate=len(minits), prestates=['absent', 'declared (the rule directories exist, default permissions)',
+                                                    'rev1 (tree left by the same project without install_mode)'],
+            revision1_installs=tot['rev1_installs'], declared_dir_modes_compared=tot['declared_dir_modes_compared'],
+            of_these_directory_existed_before_the_install=tot['declared_dir_preexisting'],
+            of_these_another_rule_installs_into_it=tot['declared_dir_shared'],
+            two_rules_declare_different_modes_skipped=tot['dir_mode_conflicts'], **cmp_of.get('M', {}), **fam.get('M', {}))
+    full_m = ck.n_viol == 0 and (not ck.args.only or 'M' in ck.args.only.split(','))
+    ck.require(not full_m or (len(mcells) == len(M.SHARED_CELLS) and len(minits) == 3 * len(M.SHARED_KINDS)),
+               'shared directories: a cell of rule kind x place x declaration order, or a rule kind x DESTDIR pre-state, is missing')
+    ck.require(not full_m or (tot['declared_dir_shared'] >= 4 * (len(M.SHARED_CELLS) - 1) and tot['declared_dir_preexisting'] >= 4 * len(M.SHARED_CELLS)
+                              and tot['rev1_installs'] >= len(M.SHARED_KINDS)),
+               'shared directories: the declared mode of a directory that another rule installs into / that existed before the install was not compared')
     if ck.thorough and full:
         ck.require(tot['strace_runs'] > 10 and tot['strace_mutations'] > 100, 'strace slice did not observe mutations')
     ck.assume('the reference install model (lib/verif/c11model.py) is my transcription of Installing.md, the install_* reference pages, '
@@ -1699,7 +1801,8 @@ def main():
     ck.assume('installed targets are really built (gcc/ar/sh) from the generated build.ninja by the refninja executor; `meson install` is '
               'always run with --no-rebuild because ninja is not installed')
     ck.assume('unspecified (never compared, counted in skipped_unspecified): mode of implied parent directories; mode of directories under '
-              'install_umask=preserve; mode of a rule directory that existed before the install; tags of shared-library alias symlinks; '
+              'install_umask=preserve; mode of a rule directory WITHOUT a declared install_mode that existed before the install; the mode of a '
+              'directory for which two rules declare different modes; tags of shared-library alias symlinks; '
               'content of the log written by --dry-run; whether a symlink copied as a link is re-created by --only-changed; what uninstall '
               'leaves after the log was rewritten by a later install / dry-run (only "removes exactly what the log names" is checked there); '
               'absence of install_emptydir / install_symlink from the install plan; implicit tags: an item in sbindir (the tag list names '
@@ -1717,6 +1820,9 @@ def main():
               '/opt/../../x = /x, re-rooted DESTDIR/x); whether the directory named before a ".." is created on the way is not specified '
               '(optional, but if created it must be logged); a build definition refused at setup counts as rejected and is not compared; '
               'what a FOLLOWED symlink source whose target vanished after setup installs is not specified (not generated)')
+    ck.assume('a directory for which exactly one rule declares an install_mode (install_emptydir) carries that mode after every install, '
+              'also when another rule of the same install, an earlier install or anything else created it first: "with the declared '
+              'install_mode" of the property; the install_mode of the other rules is documented as the mode "for the installed files"')
     ck.assume('runs as root: chown to uid/gid 0 is a no-op and setuid bits survive chmod')
     for k in COUNTERS:
         if k not in ('states', 'transitions'):
@@ -1739,7 +1845,10 @@ def main():
                    'strip_directory {unset, false, true} x {no exclusions, exclude lists relative to the installed directory with decoys} x install_dir '
                    '{relative, absolute}%s through the linear history; install_data of a symlink x follow_symlinks {unset, true, false} x {same name, '
                    'rename} x {target kept, target removed after setup (follow false)}; install_dir with .. components {inside the tree, climbing '
-                   'above the root} x {relative, absolute} x {install_data, install_subdir, install_emptydir, install_symlink}. states = '
+                   'above the root} x {relative, absolute} x {install_data, install_subdir, install_emptydir, install_symlink}; shared directories: '
+                   'install_emptydir(P, install_mode) x {alone, install_data, install_headers, install_man, install_subdir, install_symlink, custom_target} '
+                   'installing into P / below P / (subdir) as P x both declaration orders x DESTDIR pre-state {absent, rule directories exist with '
+                   'default permissions, tree left by revision 1 without install_mode}, install, install, uninstall. states = '
                    'distinct DESTDIR trees per run, transitions = install/uninstall commands executed, every one compared with the model'
                    % (len(M.RULE_IDS),
                       'style x mode x umask x prefix x DESTDIR kind = 162 configurations' if ck.thorough else 'the 9 rows of a pairwise-covering orthogonal array over name style, install_mode, install_umask, DESTDIR kind; prefix / initial tree / DESTDIR mechanism alternate with the index',
